@@ -205,3 +205,5 @@ def run(ctx):
         ctx.run_rule(rule, TEXT[rule], _mk(rule), floor={"R1.1": 3, "R1.2": 6, "R1.3": 4, "R1.4": 4, "R1.5": 4}[rule])
     ctx.run_rule("R1.6", "has_differences is true iff some record is not MatchedExpectation; validate returns Ok only on its false edge [E-PATH]", r1_6, floor=6)
     ctx.run_rule("R1.7", "Expectation::matches forwards to the rule unchanged [E-FLOW]", r1_7, floor=1)
+    from . import c04
+    ctx.run_rule("R1.8", "a Matched record is only as good as Rule::matches: per Rule impl the line reaches the whole-line comparator through the documented transforms only (shared with C04 R4.2) [E-FLOW]", c04.r4_2, floor=8)
